@@ -510,7 +510,7 @@ def r_timewindow(repo, rep):
   cls = repo.cls('common_classes.TimeWindow')
   f = cls.methods.get('__post_init__')
   if f is None:
-    rep.violation('R4/ordering-guard', cls.qualname, 'no __post_init__', 'TimeWindow has no ordering check: reversed ranges are accepted', cls.loc())
+    rep.absent_in_class(cls, 'R4/ordering-guard', cls.qualname, 'no __post_init__', 'TimeWindow has no ordering check: reversed ranges are accepted', cls.loc())
     return
   rep.fn(f)
   g = cfgmod.CFG(f.node)
